@@ -34,6 +34,8 @@ var c19Seeds = []string{
 	"##!> assemble\n##!<\n##!<\n", "##!> cmdline unix\n@\n~\n\\@\n'\n##!<\n", "##!> cmdline windows\n\n \n##!<\n", "##!=< \n", "##!=> \n##!=< x\n##!=> x\n", "##!> include\n", "##!> include-except\n", "##!> include-except a\n",
 	// suffix replacement lists with an odd number of arguments, with none, with quotes only
 	"##!> include ok -- @\n", "##!> include nosuchfile -- x y z\n", "##!> include-except ok b -- a\n", "##!> include a --\n", "##!> include a -- \n", "##!> include a -- \"\"\n", "##!> include-except a b -- \"\" \"\" x\n", "##!> include ok -- a b c d e\n",
+	// a replacement that is a single quote character, with an entry that ends in the key; include files that consist of prefix / suffix lines only
+	"##!> include ok -- e \"\n", "##!> include a -- a \"\n", "##!> include-except ok b -- e \" x \"\"\n", "##!^ \\b\n", "##! c\n##!$ x\n", "##!> define d x\n##!^ {{d}}\n", "##!^ a\n##!$ b\n\n",
 	"##!> define a {{a}}\n{{a}}\n", "##!> define a {{b}}\n##!> define b {{a}}\n{{a}}{{b}}\n", "##!^ (\n##!$ )\nx\n", "##!^ [\n##!$ ]\nx\n", "(?i)a\n(?s).\n", "a|b|\n|\n", "()\n(|)\n", "[]]\n[^]]\n", "\\\n", "x{2}{3}\n", "a**\n",
 }
 
